@@ -177,6 +177,9 @@ def jobs(tier, seed=0):
     res.append(dict(cc="DJI", preset="nw_figures_on", options=copy.deepcopy(P["net_nuclear_winter"]), figures=True))
     res.append(dict(cc="NZL", preset="res_figures_on", options=copy.deepcopy(P["net_nuclear_resilient"]), figures=True))
     res.append(dict(cc="WOR", preset="nw_untitled", options=to_global(copy.deepcopy(P["net_nuclear_winter"])), untitled=True))
+    if tier == "quick":
+        # (quick tier only - the thorough tier has Armenia: a harvest of a few thousandths of a billion kcal a month)
+        res.append(dict(cc="DJI", preset="nw_tiny_harvest", options=dict(copy.deepcopy(P["net_nuclear_winter"]), crop_kcals=2.3)))
     for cc, name in ([("DJI", "net_baseline"), ("LSO", "net_nuclear_winter")] if tier == "quick" else
                      [("DJI", "net_baseline"), ("LSO", "net_nuclear_winter"), ("NZL", "ms_worst"), ("EST", "net_nuclear_resilient")]):
         main = dict(copy.deepcopy(P[name]), NMONTHS=60)
